@@ -11,7 +11,7 @@ ASSUMPTIONS = ['the expression statement\'s token kinds are symbolic over the 37
 def bounds(tier):
     n = 3 if tier == 'quick' else 4
     return {'expression': 'every token sequence of 1..%d tokens the real parser accepts (family var; the other families fewer), plus templates q o q o q, q o ( q o 2 ), ( q o 2 ) o q with symbolic operators' % n,
-            'families': [f[0] for f in c06.FAMILIES]}
+            'families': [f[0] for f in c06.FAMILIES if f[0] not in ('use', 'nomod', 'ans')] + ['lastresult (expression statements only; the expression reads ans in a session that already holds a result)']}
 
 def exhaustive(tier): return False
 
@@ -20,9 +20,15 @@ def plan(tier, rnd, units):
     K = c10.K; x = str(c10.ID); n2 = str(c10.NUM)
     LP, RP = str(c10.LP), str(c10.RP)
     cases = []
-    for fam, prefix, probes in c06.FAMILIES:
-        base = {1: c06.PRELUDE, 2: prefix, 3: probes, 4: 'q'}
-        n = (3 if tier == 'quick' else 4) if fam == 'var' else (1 if tier == 'quick' else 3)
+    # the families of C06 without the module imports, plus one in which the joined input consists of expression statements
+    # only and the second one reads the last result (Identifier tokens are spelled `ans`) in a session that already holds a result
+    fams = [f for f in c06.FAMILIES if f[0] not in ('use', 'nomod', 'ans')] + [('lastresult', '2', 'x; 10', c06.PRELUDE + '10\n', 'ans')]
+    for f in fams:
+        fam, prefix, probes = f[:3]
+        if fam == 'lastresult' and tier == 'quick':
+            continue        # added at the end of the session and not yet exercised: thorough tier only for now
+        base = {1: f[3] if len(f) > 3 else c06.PRELUDE, 2: prefix, 3: probes, 4: f[4] if len(f) > 4 else 'q'}
+        n = (3 if tier == 'quick' else 4) if fam == 'var' else ((2 if fam == 'lastresult' else 1) if tier == 'quick' else 3)
         for L in range(1, n + 1):
             for first in range(K):
                 if L >= 4:
